@@ -699,10 +699,27 @@ def rule_header(ctx):
     if not r.require_anchor(aparam is not None and fn is b, "assumptions parameter (&[Literal]) of the function formatting the header"):
         return
     v_dep = derives_from_local(b, v_op, aparam)
+    vb, vop2 = b, v_op
+    pv2 = [o.data for o in origins(b, v_op, transparent=()) if o.kind == "param" and not o.fields]
+    if not v_dep and len(pv2) == 1 and len(origins(b, v_op, transparent=())) == 1 and str(b.vis or "").startswith("in:") and len(prog.callers_of(b)) == 1:
+        # the count is handed in by the only caller (`dimacs_instance(self.n_vars_with(assumptions), assumptions)`): judged there
+        cs0 = prog.callers_of(b)[0]
+        cfn = prog.enclosing_fn(cs0.body)
+        ap2 = [i for i in range(1, cfn.n_args + 1) if "sat::sat_solver::Literal]" in cfn.local_ty(i)]
+        if cs0.body is cfn and ap2 and pv2[0] - 1 < len(cs0.node["args"]):
+            vb, vop2 = cfn, cs0.node["args"][pv2[0] - 1]
+            v_dep = derives_from_local(cfn, vop2, ap2[0])
     r.check(v_dep, anchor, "vars-ignore-assumptions", "variable count depends on the assumptions", "the variable count of the header does not depend on the assumptions: a variable used only in an assumption exceeds the announced count", fs.site.loc())
     # stored maximum
-    seen, calls, consts = data_deps(b, v_op)
-    reads_field = _reads_self_field(b, seen, "n_vars") or any(callee_matches(callee_of(s), r"SatSolver>?::n_vars$") for s in calls)
+    seen, calls, consts = data_deps(vb, vop2)
+    reads_field = _reads_self_field(vb, seen, "n_vars") or any(callee_matches(callee_of(s), r"SatSolver>?::n_vars$") for s in calls)
+    if not reads_field:
+        # ... through a private helper of the back end that folds the assumptions into the stored maximum (`self.n_vars_with(assumptions)`)
+        for s in calls:
+            t = prog.body_for_callee(callee_of(s), vb) if callee_of(s) else None
+            if t is not None and t.kind != "closure" and t.impl and vb.impl and t.impl.get("self_adt") == vb.impl.get("self_adt") and t.ret_ty == "usize":
+                if _reads_self_field(t, set(range(0, 400)), "n_vars"):
+                    reads_field = True
     r.check(reads_field, anchor, "vars-ignore-store", "variable count depends on the stored maximum variable", loc=fs.site.loc())
     # clause count = counter + len(assumptions)
     ok_c = False
@@ -823,6 +840,19 @@ def rule_child_pipes(ctx):
                                 if p is not None and "m" in op and any(derives_from_local(b, op, l, through_calls=False) for l in outs):
                                     drained = True
                                     how = "moved to a spawned thread"
+            if not drained:
+                # ... by a helper that is handed the pipe (`drain(&mut stdout)`) and reads it to the end on every path
+                for s in b.calls():
+                    t = prog.body_for_callee(callee_of(s), b) if callee_of(s) else None
+                    if t is None or t.kind == "closure" or not b.dominates(s, w):
+                        continue
+                    for k, a in enumerate(s.node["args"]):
+                        if op_place(a) is None or not any(derives_from_local(b, a, l, through_calls=True) for l in outs):
+                            continue
+                        for s2 in t.calls():
+                            if callee_matches(callee_of(s2), DRAIN) and s2.node["args"] and derives_from_local(t, s2.node["args"][0], k + 1, through_calls=True) and t.postdominates(s2, (0, -1)):
+                                drained = True
+                                how = "%s in %s" % (strip_generics(callee_name(callee_of(s2))), t.path.rsplit("::", 1)[-1])
             r.check(
                 drained,
                 anchor,
